@@ -135,3 +135,99 @@ def register_vs_mnemonic(F, tab):
         wrapped("asm_parser::register", lambda c: c.endswith("::char"))
     return (backtracks or not (conflict and noop)), {"mnemonics starting with r": conflict, "operand-less mnemonics": noop,
                                                      "register alternative backtracks": backtracks}
+
+
+# ---------------------------------------------------------------- name resolution through the assembler itself
+def internal_entry(F):
+    """the function that turns parsed instructions into Insn values: fn(&[Instruction]) -> Result<Vec<Insn>, String>"""
+    c = [p for p, fn in F.fns.items() if p.startswith("assembler::") and fn.get("params") and len(fn["params"]) == 1
+         and "Instruction]" in fn["params"][0] and "Insn" in fn.get("ret", "") and fn.get("thir")]
+    return c[0] if len(c) == 1 else None
+
+
+def _contradictory(conds):
+    flat = set()
+    for c in conds:
+        st = [c]
+        while st:
+            x = st.pop()
+            if isinstance(x, tuple) and x and x[0] == "land":
+                st.extend([x[1], x[2]])
+            else:
+                flat.add(x)
+    return any(T.lnot(c) in flat for c in flat) or T.FALSE in flat
+
+
+def resolve(F, ev, name, shape=None, ops=None, st=None):
+    """evaluate the assembler's own name resolution + encoding for one instruction `name <operands>`:
+    -> list of dict(res='Ok'|'Err'|'panic'|'?', insns=[{field: term}], conds=[...]) over feasible paths, or None"""
+    entry = internal_entry(F)
+    if entry is None:
+        return None
+    if ops is None:
+        ops = tuple(operand(k, i) for i, k in enumerate(shape))
+    ins = symex.struct("asm_parser::Instruction", "Instruction", (("name", ("lit", name)), ("operands", ("array", tuple(ops)))))
+    outs = ev.run_fn(entry, [("array", (ins,))], st)
+    if outs is None:
+        return None
+    res = []
+    for v, st in outs:
+        if not st.feasible or _contradictory(st.conds):
+            continue
+        kind = "?"
+        if st.exit is not None and st.exit[0] == "panic":
+            kind = "panic"
+        elif any(e[0] == "call" and isinstance(e[1], str) and e[1].startswith("core::panicking") for e in st.effects):
+            kind = "panic"
+        elif isinstance(v, tuple) and len(v) > 2 and v[0] == "struct" and v[2] in ("Ok", "Err"):
+            kind = v[2]
+        insns = []
+        for e in st.effects:
+            if e[0] == "call" and isinstance(e[1], str) and e[1].endswith("Vec<T, A>::push"):
+                x = e[2][1]
+                if isinstance(x, tuple) and x and x[0] == "struct" and x[1].endswith("Insn"):
+                    insns.append({k: y for k, y in x[3]})
+                else:
+                    insns.append({"?": x})
+        res.append({"res": kind, "insns": insns, "conds": list(st.conds), "unrec": list(st.unrec)})
+    return res
+
+
+def expected_insns(itype, payload, base, shape):
+    """reference: the Insn values `name <shape>` denotes (list of field dicts), or None when the shape is not accepted"""
+    want = reference_encode(itype, tuple(shape))
+    if want is None:
+        return None
+    bit, dst, src_, off, imm = want
+
+    def opnd(nm, w):
+        if nm == 0 or nm == 1:
+            return T.K(w, nm)
+        if nm == "SIZE":
+            return T.K(w, payload)
+        if isinstance(nm, str) and nm.startswith("LOW32"):
+            v = T.V("int1", 64)
+            return T.trunc(32, T.shift("ashr", 64, T.shift("shl", 64, v, T.K(64, 32)), T.K(64, 32)))
+        return T.trunc(w, T.V(nm, 64))
+    first = {"opc": T.K(8, base | (bit or 0)), "dst": opnd(dst, 8), "src": opnd(src_, 8), "off": opnd(off, 16), "imm": opnd(imm, 32)}
+    out = [first]
+    if itype == "LoadImm":
+        out.append({"opc": T.K(8, 0), "dst": T.K(8, 0), "src": T.K(8, 0), "off": T.K(16, 0),
+                    "imm": T.trunc(32, T.shift("ashr", 64, T.V("int1", 64), T.K(64, 32)))})
+    return out
+
+
+def same_insn(got, exp):
+    for k, e in exp.items():
+        g = got.get(k)
+        if g == e:
+            continue
+        if isinstance(g, tuple) and isinstance(e, tuple):
+            try:
+                lg, le = T.lanes(g), T.lanes(e)
+                if None not in le and lg == le:
+                    continue
+            except Exception:
+                pass
+        return False
+    return True
